@@ -729,7 +729,7 @@ def sparse_correlation(ind1, data1, ind2, data2, n_features):
 
     dot_prod_inds, dot_prod_data = sparse_mul(ind1, shifted_data1, ind2, shifted_data2)
 
-    common_indices = set(dot_prod_inds)
+    common_indices = set(arr_intersect(ind1, ind2))
 
     for val in dot_prod_data:
         dot_product += val
